@@ -56,7 +56,12 @@ func execBufConc(t *trace, script []string) {
 				pmu.Lock()
 				vals := pendingPut[e.G]
 				pmu.Unlock()
-				log.Add("put %s", strings.Trim(strings.ReplaceAll(fmt.Sprint(vals), " ", ","), "[]"))
+				// n = how many values THIS critical section appended (the whole batch, if Put is atomic)
+				if len(vals) > 16 {
+					log.Add("putr %d %d n=%d", vals[0], len(vals), e.N)
+				} else {
+					log.Add("put %s n=%d", strings.Trim(strings.ReplaceAll(fmt.Sprint(vals), " ", ","), "[]"), e.N)
+				}
 			case "buf.newconsumer":
 				log.Add("newconsumer %d base=%d", idxOf(e.Obj), e.N)
 			case "buf.commit":
@@ -116,11 +121,14 @@ func execBufConc(t *trace, script []string) {
 				seq := 0
 				for k := 0; k < ops; k++ {
 					n := []int{1, 1, 2, 3, 5}[r.Intn(5)]
+					if r.Intn(14) == 0 {
+						n = 1030 + r.Intn(2200) // a large batch: still one contiguous, atomic append
+					}
 					vals := make([]int, n)
 					iv := make([]interface{}, n)
 					for j := range vals {
 						seq++
-						vals[j] = (p+1)*100000 + seq
+						vals[j] = (p+1)*10000000 + seq
 						iv[j] = vals[j]
 					}
 					pmu.Lock()
